@@ -229,7 +229,7 @@ func (s *state) spfResult(res spf.Result, err error) module.CheckResult {
 	return module.CheckResult{
 		Reason: &exterrors.SMTPError{
 			Code:         550,
-			EnhancedCode: exterrors.EnhancedCode{4, 7, 23},
+			EnhancedCode: exterrors.EnhancedCode{5, 7, 23},
 			Message:      fmt.Sprintf("Unknown SPF status: %s", res),
 			CheckName:    modName,
 			Err:          err,
